@@ -205,15 +205,20 @@ def rule_M9(repo: Repo) -> RuleResult:
 def rule_D7c(repo: Repo) -> RuleResult:
     res = RuleResult("D7c", "var: the group sums are cast to float64 before they are squared")
     var = repo.func(CORE, "GroupBy.var")
-    sq = [x for x in walk_no_nested(var.node) if isinstance(x, ast.BinOp) and isinstance(x.op, ast.Pow) and const_int(x.right) == 2
-          and ".sum(" in norm(x.left)]
+    from .canon import subst_single_defs
+    # `s = self.sum(..).to_numpy().astype(np.float64); sum_sq = s ** 2`: a local stands for its single definition
+    sq = [(x, subst_single_defs(var, x.left)) for x in walk_no_nested(var.node) if isinstance(x, ast.BinOp) and isinstance(x.op, ast.Pow)
+          and const_int(x.right) == 2]
+    sq += [(x, subst_single_defs(var, x.left)) for x in walk_no_nested(var.node) if isinstance(x, ast.BinOp) and isinstance(x.op, ast.Mult)
+           and norm(x.left) == norm(x.right)]
+    sq = [(x, left) for x, left in sq if ".sum(" in norm(left)]
     if not sq:
         raise AnalysisError("D7c: squared sum not found in GroupBy.var")
-    for x in sq:
-        t = norm(x.left)
+    for x, left in sq:
+        t = norm(left)
         ok = any(isinstance(c, ast.Call) and isinstance(c.func, ast.Attribute) and c.func.attr == "astype" and c.args
                  and norm(c.args[0]).strip("'\"") in ("np.float64", "float", "float64", "np.float_", "np.double")
-                 for c in ast.walk(x.left))
+                 for c in ast.walk(left))
         if ok:
             res.ok(var, x, t[:80], "squared in float64")
         else:
